@@ -379,6 +379,14 @@ def rules(rep, m):
             rep.sample({"rule": "R-C15-6", "function": f.name, "key": key, "values": values})
             bad = None
             if key_at:
+                # the key is given the parameter it is compared with (not a quantity derived from it: the next call with the
+                # same parameter would miss, and one with that derived value would hit on the wrong constants)
+                par_c = fcx.canon(parc[0])
+                for y in walk(block):
+                    if y["kind"] == "BinaryOperator" and y.get("opcode") == "=" and cell(kids(y)[0]) == key:
+                        if fcx.canon(kids(y)[1]) != par_c:
+                            bad = ("the key '%s' is compared with '%s' but stored as '%s': the memo is then looked up under one "
+                                   "value and filed under another" % (key, par_c, fcx.canon(kids(y)[1])))
                 # every value is written by a top-level statement of the block (not only under a nested condition) ...
                 for v_ in values:
                     if not any(v_ in cells_written(s_) and s_["kind"] != "IfStmt" for s_ in stmts):
